@@ -156,3 +156,5 @@ package parser
 //@ ensures[C01.infix.op] result != nil ==> result.(*ast.Infix).operator == old(p.curToken.Literal)
 //@ ensures[C01.infix.right] result != nil ==> result.(*ast.Infix).right != nil
 //@ ensures[C01.infix.power] result != nil ==> uf("parsedAt", int, result.(*ast.Infix).right) == ite(old(hasprec(p.curToken.Type)), old(prec(p.curToken.Type)), LOWEST)
+
+//@ scan[C09.globals.parser] C09 pkgglobals github.com/risor-io/risor/parser:
